@@ -43,6 +43,11 @@ claim("C14",
   "Per-offset truncation behaviour, CRC collisions and rotation timing are value/timing properties: NOT decided. GroupReader.Read's fill-or-error contract (bufio) is trusted." + TB,
   STATIC + "guard dominance (K1), error-class discipline on every return (K8), writer/reader sibling agreement (K5), path ordering (K2)")
 
+claim("C13",
+  "The crash-point clause is decided through what is visible in the shape of the code: the ORDER of the durable writes of a commit (no CFG path executes a later write before an earlier one) in CommitBlock, finalizeCommit, ApplyBlock, saveStatus, SaveBlock, wrappedTrie.Commit, SaveWAL, StateDB.Commit; the recovery code accepting exactly the lags that order can produce (node.NewNode, NewKeyValueDBWithCache decided as an all-paths property); error discipline at every error-returning storage call on the commit path (each call site classified propagated/fatal/dropped/swallowed); pruning bounds in wrap-free normal form with sibling agreement and the last-changed-record hazard. Two pruning defects were repaired (5323335); six dropped/swallowed storage errors and the last-changed-record pruning hazard are known findings.",
+  "Atomicity of each backend's batch on disk (C19), content equality of what is read back, and the writes SaveBlock performs outside its batch are not decided." + TB,
+  STATIC + "path-order queries on the CFG (K2), error-discipline classifier over SSA def-use (K8), arithmetic normal forms of guards (K11), all-paths guards (K6/K1)")
+
 for _p in ["C%02d" % i for i in range(1, 21)]:
     if _p not in CLAIMED:
         na(_p, PENDING)
